@@ -31,7 +31,7 @@ ANCHORS = [
     "raggedshape.py::ViewBase.ravel_multi_index", "raggedshape.py::ViewBase.unravel_multi_index", "raggedshape.py::ViewBase.index_array",
     "raggedshape.py::RaggedShape.size",
 ]
-CTORS = ["rows", "tuplerows", "matrix2d_dtype", "pyrows", "mixedrows", "flat", "flat_nplens", "flatlist", "shape_tuple", "raggedshape", "flat_strided", "matrix"]
+CTORS = ["rows", "from_ragged", "tuplerows", "matrix2d_dtype", "pyrows", "mixedrows", "flat", "flat_nplens", "flatlist", "shape_tuple", "raggedshape", "flat_strided", "matrix"]
 FLOOR_TAGS = ["ctor:" + c for c in CTORS] + ["kind:b", "kind:i", "kind:u", "kind:f", "v:small", "v:extreme", "v:nonfinite",
                                              "reject", "saveload", "matrix-roundtrip", "order:F", "order:T", "order:strided", "norows", "allempty", "e-first", "e-last", "e-mid", "e-consec", "e-none", "big-repr", "lensdtype:narrow", "lensdtype:sum-overflows"]
 FLOOR_MONITORS = ["c01:readback", "c01:geometry", "c01:reject", "c01:result-independent", "inv:ragged"]
@@ -69,6 +69,12 @@ def build(case, flat, rows):
             if exact:
                 return RA(src, dtype=dt), True
         return RA([r.copy() for r in rows], dtype=dt), True
+    if ctor == "from_ragged":      # the rows given as another ragged array: the new array holds its own copy
+        src_ = RA(flat.copy(), list(lens))
+        new_ = RA(src_)
+        if src_.size:
+            scribble(src_.ravel())
+        return new_, True
     if ctor == "tuplerows":        # the rows in a tuple instead of a list
         return RA(tuple(r.copy() for r in rows), dtype=dt), True
     if ctor == "pyrows":
@@ -80,7 +86,11 @@ def build(case, flat, rows):
         return RA(flat.copy(), list(lens)), True
     if ctor == "flat_nplens":
         # the lengths as a numpy array of any integer dtype that holds every length (the *sums* need not fit that dtype)
-        return RA(flat.copy(), np.array(lens, dtype=case.get("lensdtype", "int64"))), True
+        la_ = np.array(lens, dtype=case.get("lensdtype", "int64"))
+        x_ = RA(flat.copy(), la_)
+        if len(la_):
+            la_[...] = la_[::-1].copy() if len(set(lens)) > 1 else la_ + 1       # the caller reuses his lengths array afterwards
+        return x_, True
     if ctor == "flatlist":
         return RA(flat.tolist(), list(lens), dtype=dt), True
     if ctor == "shape_tuple":
@@ -128,8 +138,8 @@ def run(case):
     if not c.ok:
         return violated("constructor %s refused rows of lengths %s (%s): %r" % (case["ctor"], lens, dt, c), tags)
     ra, dtype_fixed = c.value
-    if tot == 0 and case["ctor"] in ("pyrows", "mixedrows"):
-        dtype_fixed = False
+    if tot == 0 and case["ctor"] in ("pyrows", "mixedrows", "from_ragged"):
+        dtype_fixed = False       # without any element the element type of a list of rows is numpy's default
     if case["ctor"] == "rows":
         dtype_fixed = True
 
@@ -199,6 +209,14 @@ def run(case):
                 if form == 2:
                     ra.save(os.path.join(d, "x"))
                     return RA.load(p)
+                if form == 0 and n % 2:
+                    # a name that already contains a dot (numpy appends .npz, it does not replace a suffix); an unrelated x.npz exists next to it
+                    RA(np.arange(7), [3, 4]).save(p)
+                    ra.save(os.path.join(d, "x.v2"))
+                    other = RA.load(p)
+                    if other.tolist() != [[0, 1, 2], [3, 4, 5, 6]]:
+                        raise AssertionError("saving as 'x.v2' changed the unrelated file 'x.npz': %s" % (other.tolist(),))
+                    return RA.load(os.path.join(d, "x.v2.npz"))
                 if form == 3:
                     with open(p, "wb") as fh:
                         ra.save(fh)
@@ -271,6 +289,16 @@ def check_geometry(lens, ra, tags, lens_as=None):
             r = G(what, f, exp)
             if r:
                 return r
+        if n >= 2 and name.startswith("RaggedShape"):
+            for a_, b_ in ((1, n), (n // 2, n), (1, max(2, n - 1)), (0, n)):
+                sub = attempt(lambda: shape[a_:b_])
+                if sub.ok:
+                    r = G("lengths of shape[%d:%d]" % (a_, b_), lambda: np.asarray(sub.value.lengths).tolist(), list(lens[a_:b_]))
+                    if r:
+                        return r
+                    r = G("starts (after slicing the shape object [%d:%d])" % (a_, b_), lambda: np.asarray(shape.starts).tolist(), starts)
+                    if r:
+                        return r
         # 'ends' is computed on request (starts + lengths): the array handed out belongs to the caller, who may change it
         # (e.g. last = shape.ends; last -= 1) without changing what the geometry object reports or computes afterwards
         if n and name.startswith("RaggedShape"):
